@@ -745,6 +745,25 @@ def r11_resume_offset(a, tier):
         if not ok:
             rep.fail(fn.qualname, f'resume-offset:{what}', f'receive() on a file with {what}: seeks {state["seeks"]}, delivers {ids}, leaves the stored offset at {told}; required: seek({start}) '
                      f'first, {want_ids} delivered, the offset at {want_told} (the file position after the last complete line)', fn.loc)
+    # records are handed out one at a time, from inside the reading loop: the offset and the seen-set are moved for ONE record before it is
+    # delivered, so a reader that stops after any packet resumes with the next one.  A delivery after the loop (a batch) has moved both
+    # for every record read, and the records the consumer did not take are never delivered again
+    pm = a.resolver.parents(fn)
+    loops = [n for n in walk_no_defs(fn.node) if isinstance(n, (ast.While, ast.For)) and any(
+        isinstance(c, ast.Call) and isinstance(c.func, ast.Attribute) and c.func.attr in ('readline', 'readlines', '__next__') for c in ast.walk(n.test if isinstance(n, ast.While) else n.iter))]
+    if not loops:
+        loops = [n for n in walk_no_defs(fn.node) if isinstance(n, (ast.While, ast.For)) and any(
+            isinstance(c, ast.Call) and isinstance(c.func, ast.Attribute) and c.func.attr == 'readline' for c in ast.walk(n))]
+    for y in [n for n in walk_no_defs(fn.node) if isinstance(n, (ast.Yield, ast.YieldFrom))]:
+        cur, inside = y, False
+        while id(cur) in pm:
+            cur = pm[id(cur)]
+            if any(cur is lp for lp in loops):
+                inside = True
+        rep.add({'delivery': norm(y)[:50], 'inside_the_reading_loop': inside})
+        if not inside:
+            rep.fail(fn.qualname, 'delivery-after-the-loop', f'`{norm(y)[:60]}` at {fn.module.relpath}:{y.lineno} hands packets out after the reading loop has moved the resume offset and the '
+                     f'seen-set for all of them: a reader that takes fewer packets than were pending never receives the rest', f'{fn.module.relpath}:{y.lineno}')
     return rep
 
 
